@@ -189,6 +189,37 @@ def check(ctx):
                   "insertion reactions are queued without checking that React<C> is present on the entity: if the entity was despawned before the "
                   "deferred insert was applied the component was never inserted, yet insertion reactors run")
     ctx.touch(None, states=E.states)
+    # ---- C14.g the system a trigger is handed to IS the cache's scheduler (or forwards to it on every path): a wrapper
+    #      system with an early return silently drops triggers; and every site that queues the insertion scheduler has
+    #      unconditionally (try_)inserted the component first ----
+    nw = 0
+    for body in prog.bodies:
+        for b, t, fr in body.iter_calls():
+            if fr is None or lib.tail(mir.fn_name(fr), 1) not in effects.SYSCALL_NAMES:
+                continue
+            for a in t["args"]:
+                fa = op_fn(a)
+                if not fa or lib.tail(mir.fn_name(fa), 1) not in SCHEDULERS:
+                    continue
+                nw += 1
+                tgt = prog.resolve_local(fa)
+                if tgt is not None and lib.impl_self_name(tgt) != "ReactCache" and tgt.kind in ("fn", "assoc_fn"):
+                    fw = [b2 for b2, t2, fr2 in tgt.iter_calls() if fr2 and lib.tail(mir.fn_name(fr2), 1) in effects.SYSCALL_NAMES
+                          and any(op_fn(a2) and lib.tail(mir.fn_name(op_fn(a2)), 1) in SCHEDULERS and prog.resolve_local(op_fn(a2)) is not None
+                                  and lib.impl_self_name(prog.resolve_local(op_fn(a2))) == "ReactCache" for a2 in t2["args"])]
+                    w_ = lib.path_to_return_avoiding(tgt, [0], fw)
+                    ctx.check(bool(fw) and w_ is None, "C14.g", "%s:forwards-every-trigger-to-the-cache" % lib.fkey(tgt), "%s:%d" % (tgt.file, tgt.line),
+                              "the intermediate system forwards to the cache scheduler on every path",
+                              "%s is queued as the trigger's system but can return without forwarding to the ReactCache scheduler (the trigger is dropped)" % lib.fkey(tgt),
+                              lib.render_path(tgt, w_) if w_ else None)
+                if lib.tail(mir.fn_name(fa), 1) == "schedule_insertion_reaction" and body.kind in ("fn", "assoc_fn"):
+                    ins_ = [(b2, lib.tail(mir.fn_name(fr2), 2)) for b2, t2, fr2 in body.iter_calls() if fr2 and lib.tail(mir.fn_name(fr2), 2).startswith("EntityCommands::")
+                            and "insert" in lib.tail(mir.fn_name(fr2), 1)]
+                    okc = bool(ins_) and all(nm in ("EntityCommands::try_insert", "EntityCommands::insert") for _, nm in ins_) and any(body.dominates(b2, b) for b2, _ in ins_)
+                    ctx.check(okc, "C14.g", "%s:insertion-trigger-only-after-unconditional-insert" % lib.fkey(body), body.loc(b),
+                              "the insertion trigger follows an unconditional (try_)insert of the component",
+                              "%s queues insertion reactions after %s: the component may not have been inserted (e.g. insert-if-new on an entity that already has it)" % (lib.fkey(body), [nm for _, nm in ins_]))
+    ctx.floor("C14.g", nw, 4, "sites that hand a scheduler to a syscall")
     # ---- C14.e a trigger issued by an accessor is not made void behind the accessor's back: the registrations the
     #      trigger is dispatched to are deleted from their table only when they are really gone (shared with C06.f) ----
     import core, c06
@@ -200,6 +231,11 @@ def check(ctx):
     nf = core.adopt(ctx, c02, lambda o: (o["rule"] == "C02.d" and "one-runner-call-per-path" in o["key"])
                     or (o["rule"] == "C02.c" and ("::replay:" in o["key"] or "replay-present" in o["key"])), "C14.f")
     ctx.floor("C14.f", nf, 8, "shared delivery obligations (C02.c/d)")
+    # ... and dispatched: the dispatch loops of the schedulers the accessors trigger cannot be skipped while their list is
+    # non-empty (a listener-count fast path that under-counts drops triggers)
+    import c01 as _c01
+    nl = core.adopt(ctx, _c01, lambda o: o["rule"] == "C01.b" and any(k in o["key"] for k in ("schedule_mutation_reaction", "schedule_insertion_reaction", "schedule_resource_mutation_reaction")), "C14.f")
+    ctx.floor("C14.f", nl, 6, "shared dispatch-loop obligations of the schedulers the accessors trigger (C01.b)")
 
 
 def _is_entity_scheduler(prog, fr):
